@@ -155,8 +155,9 @@ def check(run):
     if run.tier == "thorough" or any(r.status != "ok" for r in run.reports) or run.undecided:
         shapes = [(2, 0, 1, 1), (3, 1, 2, 2), (2, 2, 0, 3), (1, 0, 1, 2), (3, 0, 2, 4), (4, 1, 1, 2)] if run.tier == "thorough" else [(3, 1, 2, 2), (2, 0, 1, 3)]
         native_sweep(run, shapes)
-    from checks.ekf_common import stateful_sweep
+    from checks.ekf_common import dtype_sweep, stateful_sweep
 
+    dtype_sweep(run, "C03", ("jacobian",))
     stateful_sweep(run, "C03", ("call",), run.tier == "thorough" or any(r.status != "ok" for r in run.reports) or bool(run.undecided) or bool(run.findings))
 
 
@@ -165,6 +166,10 @@ def replay_file(payload):
         from checks.ekf_common import replay_magnitude
 
         return replay_magnitude(payload["inputs"])
+    if payload["inputs"].get("dtypes"):
+        from checks.ekf_common import replay_dtypes
+
+        return replay_dtypes(payload["inputs"])
     if payload["inputs"].get("sequence"):
         from checks.ekf_common import replay_sequence
 
